@@ -95,6 +95,10 @@ pub struct ShellSim {
     since_flush: u64,
     since_hk: u64,
     recent_marked: Option<usize>,
+    steps_done: u64,
+    steps_total: u64,
+    victim_attempts: u32,
+    quiet_on: bool,
     // ---- counters
     c: HashMap<&'static str, u64>,
 }
@@ -139,7 +143,7 @@ impl ShellSim {
             now: T0, n: 2, profile: "mixed".into(),
             path: vec![], rtt: vec![], group: None, registered: vec![], pending: VecDeque::new(),
             ack_buf: vec![], rx_seqs: Default::default(), rx_count: 0, sendfail: vec![],
-            next_seq: 1000, sent_seqs: vec![], pkt_ctr: 0, since_flush: 0, since_hk: 0, recent_marked: None,
+            next_seq: 1000, sent_seqs: vec![], pkt_ctr: 0, since_flush: 0, since_hk: 0, recent_marked: None, steps_done: 0, steps_total: 4000, victim_attempts: 0, quiet_on: false,
             c: HashMap::new(),
         }
     }
@@ -219,6 +223,7 @@ impl ShellSim {
                     "regime": c.batch_sender.regime().as_str(),
                     "hwm": if c.highest_acked_seq == i32::MIN { -1 } else { c.highest_acked_seq as i64 },
                     "weak": c.weak, "lossdeg": c.loss_degraded,
+                    "cto": v.conn_timeout_ms,
                 })
             })
             .collect()
@@ -377,6 +382,10 @@ impl ShellSim {
         self.since_flush = 0;
         self.since_hk = 0;
         self.recent_marked = None;
+        self.steps_done = 0;
+        self.victim_attempts = 0;
+        self.quiet_on = false;
+        self.steps_total = cfg.get("steps").and_then(Value::as_u64).unwrap_or(4000);
         let _ = self.drain_receiver();
         let _ = self.drain_client();
     }
@@ -509,6 +518,14 @@ impl Engine for ShellSim {
                 for (i, (t, a, _)) in pre.iter().enumerate() {
                     if *t && *a {
                         self.bump("reconnect_attempts");
+                        if i + 1 == self.n && self.n >= 2 {
+                            // adversarial repair: everything is repaired right after the victim's 4th retry,
+                            // i.e. as far as possible from its next one
+                            self.victim_attempts += 1;
+                            if self.victim_attempts >= 4 && self.profile == "repair" {
+                                self.quiet_on = true;
+                            }
+                        }
                         self.sendfail[i] = false;
                         self.registered[i] = false;
                     }
@@ -577,6 +594,7 @@ impl Engine for ShellSim {
                 });
                 line["left"] = json!(self.packet_rx.len());
             }
+            "ReplyLost" => {}
             "SetPath" => {
                 let l = geti(ev, "l") as usize - 1;
                 self.path[l] = match gets(ev, "p") {
@@ -640,17 +658,26 @@ impl Engine for ShellSim {
             _ => rng.random_range(0..3) == 0,
         };
         let guard = if profile == "classic" { false } else { rng.random_range(0..5) != 0 };
-        let timeout = [5000u64, 5000, 1000, 2000, 12_000][rng.random_range(0..5)];
+        let mut timeout = [5000u64, 5000, 1000, 2000, 12_000][rng.random_range(0..5)];
+        if profile == "repair" && rng.random_range(0..5) == 0 {
+            timeout = 60_000;
+        }
         json!({"links": rng.random_range(1..=4), "classic": classic, "guard": guard, "quality": rng.random_range(0..4) != 0,
-               "timeout": if profile == "fault" { timeout } else { 5000 }, "profile": profile, "seed": rng.random_range(0..1_000_000u64)})
+               "timeout": if profile == "fault" || profile == "repair" { timeout } else { 5000 }, "profile": profile,
+               "steps": std::env::var("VH_STEPS").ok().and_then(|s| s.parse::<u64>().ok()).unwrap_or(4000), "seed": rng.random_range(0..1_000_000u64)})
     }
 
     fn gen_event(&mut self, rng: &mut StdRng) -> Option<Value> {
+        self.steps_done += 1;
         // 1. replies of the fake receiver that are due
         if let Some(pos) = self.pending.iter().position(|r| r.at <= self.now) {
             let r = self.pending.remove(pos).unwrap();
-            if self.path[r.link] == Path::Up && rng.random_range(0..40) != 0 {
-                if rng.random_range(0..60) == 0 {
+            let quiet = self.profile == "repair" && (self.quiet_on || self.steps_done * 10 >= self.steps_total * 5);
+            if self.path[r.link] != Path::Up || (!quiet && rng.random_range(0..40) == 0) {
+                return Some(json!({"ev": "ReplyLost", "l": r.link as i64 + 1}));
+            }
+            {
+                if !quiet && rng.random_range(0..60) == 0 {
                     self.pending.push_back(Reply { at: self.now + 5, link: r.link, bytes: r.bytes.clone() }); // duplicate
                 }
                 return Some(json!({"ev": "UplinkPkt", "l": r.link as i64 + 1, "bytes": r.bytes}));
@@ -678,9 +705,27 @@ impl Engine for ShellSim {
             self.since_flush = 0;
             return Some(json!({"ev": "FlushTick"}));
         }
-        let fault = self.profile == "fault";
+        // "repair": faults during the first 40 % of the run, then everything is repaired and stays quiet
+        let repair = self.profile == "repair";
+        let quiet = repair && (self.quiet_on || self.steps_done * 10 >= self.steps_total * 5);
+        if quiet {
+            if let Some(l) = (0..self.n).find(|i| self.path[*i] != Path::Up) {
+                return Some(json!({"ev": "SetPath", "l": l as i64 + 1, "p": "up"}));
+            }
+        }
+        // one victim link is black-holed for the whole fault phase (a long outage, then the repair)
+        if repair && !quiet && self.n >= 2 && self.steps_done * 20 >= self.steps_total {
+            let victim = self.n - 1;
+            if self.path[victim] == Path::Up {
+                return Some(json!({"ev": "SetPath", "l": victim as i64 + 1, "p": "hole"}));
+            }
+        }
+        let fault = self.profile == "fault" || (repair && !quiet);
         let relay = self.profile == "relay";
-        let r = rng.random_range(0..1000);
+        let mut r = rng.random_range(0..1000);
+        if quiet && r < 30 {
+            r = 500; // no faults, no configuration changes, no strays
+        }
         // 3. faults and configuration
         if fault && r < 12 || r < 2 {
             let l = rng.random_range(1..=self.n);
@@ -759,9 +804,16 @@ impl Engine for ShellSim {
             let d = match rng.random_range(0..10) {
                 0 => rng.random_range(10..16),
                 1 => rng.random_range(100..400),
-                2 if fault => rng.random_range(900..1100),
+                2 | 3 if fault || quiet => rng.random_range(900..1100),
                 _ => rng.random_range(1..8),
             };
+            // never jump past a reply that is in flight: the network delivers it when it is due
+            let d = match self.pending.iter().map(|r| r.at).min() {
+                Some(at) if at > self.now => d.min(at - self.now),
+                _ => d,
+            };
+            // ... nor past the next housekeeping pass (the 1 s timer fires on time)
+            let d = d.min(1000u64.saturating_sub(self.since_hk).max(1));
             self.since_flush += d;
             self.since_hk += d;
             return Some(json!({"ev": "Advance", "d": d}));
